@@ -48,6 +48,18 @@ def run(rep, tier):
                     _c04.check_example(rep, db, f, "%s | %s" % (db.label, f["full"][:150]), rule="R-C07-encoding")
                 except Inconclusive as ex:
                     rep.inconclusive("R-C07-encoding", site(f), str(ex), "%s | %s" % (db.label, f["full"][:150]))
+    rep.rule("R-C07-nullstore", "storing nullptr through a tainted reference is one store of the integer 0 into the stored (guest-width) representation - not a byte fill sized by the application's pointer type, which "
+             "also clears the bytes after a narrower guest pointer (shared analysis with C04's R-C04-nullstore)")
+    n_null = 0
+    for db in dbs:
+        for f in db.functions:
+            if not f["dep"] and "body" in f and f["n"] == "rlbox::tainted_volatile::operator=" and f["params"] and "nullptr_t" in ((f["params"][0]["t"] or {}).get("c") or ""):
+                try:
+                    _c04.check_example(RuleView(rep, {"R-C04-nullstore": "R-C07-nullstore"}), db, f, "%s | %s" % (db.label, f["full"][:150]))
+                    n_null += 1
+                except Inconclusive as ex:
+                    rep.inconclusive("R-C07-nullstore", site(f), str(ex), "%s | %s" % (db.label, f["full"][:150]))
+    rep.require(n_null >= 2, "only %d nullptr stores analysed (floor 2)" % n_null)
     for db in dbs:
         rep.units.append(db.label)
         for name in ("rlbox::tainted_base_impl::copy_and_verify_range", "rlbox::tainted_base_impl::copy_and_verify_buffer_address", "rlbox::tainted_base_impl::unverified_safe_pointer_because"):
